@@ -72,6 +72,7 @@ class DeviceConn:
         self.outbox: list[tuple[Any, ...]] | None = None
         self.sent: list[dict[str, Any]] = []
         self.first_byte_seq: int | None = None
+        self.last_due = 0.0
         self.immediate = False   # True: bypass the event queue (bytes are in the socket buffer at once)
         dev.conns.append(self)
 
@@ -275,7 +276,10 @@ class DeviceConn:
         if self.immediate:
             put()
         else:
-            self.sim.net.at(self.sim.clock + delay, put)
+            # one TCP stream: bytes written later never overtake bytes written earlier (a delayed reply holds back what follows it)
+            due = max(self.sim.clock + delay, self.last_due)
+            self.last_due = due
+            self.sim.net.at(due, put)
 
     # ------------------------------------------------------------ queries
     def received_names(self) -> list[str]:
